@@ -90,6 +90,62 @@ Proof.
   destruct (find_row r (l_rows l)) as [x|]; [rewrite Hrow|]; reflexivity.
 Qed.
 
+
+(* ---- the order of attribute operations does not matter for what cells read -------------------- *)
+Lemma row_column_style_eq l r c :
+  row_column_style l r c =
+  (let (s, cf) := rstyle_at (l_rows l) r in
+   if cf then s else match style_at (l_cols l) c with Some i => i | None => 0 end).
+Proof.
+  unfold row_column_style, rstyle_at, style_at.
+  destruct (find_row r (l_rows l)) as [x|]; [destruct (r_custom_format x)|]; try reflexivity;
+    destruct (find_col c (l_cols l)) as [d|]; reflexivity.
+Qed.
+
+(* height / width / hidden operations on any row or column, applied to any layer, change the
+   style no cell reads (neither get_cell_style_index nor get_cell_style_or_none) *)
+Theorem size_ops_keep_cell_styles down up (up_down : forall w, up (down w) = w) l o r c :
+  (match o with LRowHeight _ _ | LRowHidden _ _ | LColWidth _ _ | LColHidden _ _ => True | _ => False end) ->
+  get_cell_style_index (step_lop down up l o) r c = get_cell_style_index l r c /\
+  get_cell_style_or_none (step_lop down up l o) r c = get_cell_style_or_none l r c.
+Proof.
+  intro Ho. unfold step_lop.
+  destruct (apply_lop down up l o) as [l'| |] eqn:E; try (split; reflexivity).
+  assert (Hrows : forall rs' ro, (match ro with SetHeight _ _ | SetRowHidden _ _ => True | _ => False end) ->
+            apply_rop down (l_rows l) ro = Ok rs' -> rstyle_at rs' r = rstyle_at (l_rows l) r).
+  { intros rs' ro Hro Er.
+    pose proof (rows_frame down up up_down (l_rows l) ro r RStyle) as Hf.
+    unfold step_rop in Hf. rewrite Er in Hf. cbn [rget] in Hf.
+    assert (Hne : (rop_row ro, rop_attr ro) <> (r, RStyle)) by (destruct ro; try contradiction; cbn; congruence).
+    specialize (Hf Hne). congruence. }
+  assert (Hcols : forall cs' co, (match co with SetWidth _ _ | SetHidden _ _ => True | _ => False end) ->
+            apply_cop down up (l_cols l) co = Ok cs' -> style_at cs' c = style_at (l_cols l) c).
+  { intros cs' co Hco Ec.
+    destruct (Z.eq_dec c (cop_col co)) as [->|Hne].
+    - destruct co as [j w|j b|j s0|j]; try contradiction; cbn [cop_col apply_cop] in *.
+      + apply (set_width_same down up up_down) in Ec as (_ & _ & H3). exact H3.
+      + apply (set_hidden_same down up up_down) in Ec as (_ & _ & H3). exact H3.
+    - pose proof (cop_other_columns down up (l_cols l) co cs' c Ec Hne) as Hv.
+      apply (obs_of_view up) in Hv as (_ & _ & H3 & _). exact H3. }
+  destruct o as [r0 c0 i|r0 i|c0 i|r0 h|r0 b|r0|c0 w|c0 b|c0]; try contradiction; cbn [apply_lop] in E.
+  - destruct (Rows.set_row_height down (l_rows l) r0 h) as [rs'| |] eqn:Er; try discriminate.
+    injection E as <-. unfold get_cell_style_index, get_cell_style_or_none. cbn [l_cells].
+    rewrite !row_column_style_eq. cbn [l_rows l_cols].
+    rewrite (Hrows rs' (SetHeight r0 h) I Er). split; reflexivity.
+  - destruct (Rows.set_row_hidden down (l_rows l) r0 b) as [rs'| |] eqn:Er; try discriminate.
+    injection E as <-. unfold get_cell_style_index, get_cell_style_or_none. cbn [l_cells].
+    rewrite !row_column_style_eq. cbn [l_rows l_cols].
+    rewrite (Hrows rs' (SetRowHidden r0 b) I Er). split; reflexivity.
+  - destruct (Cols.set_column_width down (l_cols l) c0 w) as [cs'| |] eqn:Ec; try discriminate.
+    injection E as <-. unfold get_cell_style_index, get_cell_style_or_none. cbn [l_cells].
+    rewrite !row_column_style_eq. cbn [l_rows l_cols].
+    rewrite (Hcols cs' (SetWidth c0 w) I Ec). split; reflexivity.
+  - destruct (Cols.set_column_hidden down up (l_cols l) c0 b) as [cs'| |] eqn:Ec; try discriminate.
+    injection E as <-. unfold get_cell_style_index, get_cell_style_or_none. cbn [l_cells].
+    rewrite !row_column_style_eq. cbn [l_rows l_cols].
+    rewrite (Hcols cs' (SetHidden c0 b) I Ec). split; reflexivity.
+Qed.
+
 (* ---- C30 at cell level: assign = intern + store the index; read = index + resolve -------------- *)
 Section Cells.
 Variables font fill border align : Type.
@@ -120,6 +176,38 @@ Proof.
   - intros r' c' Hne. pose proof (set_cell_style_frame l r c i l' r' c' Hs Hne) as Hf.
     split; [exact Hf|]. intro Hk. rewrite Hf.
     exact (proj1 (intern_stable _ _ _ _ _ _ _ _ font_eqb_eq fill_eqb_eq border_eqb_eq align_eqb_eq st s st' i Hwf Hi) _ Hk).
+Qed.
+
+(* Model::set_row_style with a non-default style, on ANY layer (whatever record the row had before:
+   none, one created by set_row_height / set_row_hidden, one carrying the default style, one
+   whose style was deleted): the row getter and every cell of the row without a style of its own
+   read the style *)
+Theorem row_assignment (st : styles font fill border align) s st' i down l r l' :
+  wf_styles st -> intern st s = Ok (st', i) -> i <> 0 -> layer_set_row_style down l r i = Ok l' ->
+  (exists k, Rows.get_row_style (l_rows l') r = Some k /\ get_style st' k = Ok s) /\
+  forall c, get_cell_style_or_none l' r c = None -> get_style st' (get_cell_style_index l' r c) = Ok s.
+Proof.
+  intros Hwf Hi Hnz Hs.
+  pose proof (intern_readback _ _ _ _ _ _ _ _ font_eqb_eq fill_eqb_eq border_eqb_eq align_eqb_eq st s st' i Hwf Hi) as Hr.
+  destruct (set_row_style_layer down l r i l' Hs) as (H1 & H2). split.
+  - exists i. split; assumption.
+  - intros c Hc. rewrite (H2 c Hc). apply Z.eqb_neq in Hnz. rewrite Hnz. exact Hr.
+Qed.
+
+(* the same for columns (rows with custom_format take precedence, as in get_cell_style_index) *)
+Theorem column_assignment (st : styles font fill border align) s st' i down up l c l' :
+  (forall w, up (down w) = w) ->
+  wf_styles st -> intern st s = Ok (st', i) -> layer_set_column_style down up l c i = Ok l' ->
+  (exists k, style_at (l_cols l') c = Some k /\ get_style st' k = Ok s) /\
+  forall r, get_cell_style_or_none l' r c = None ->
+    (match find_row r (l_rows l') with Some x => r_custom_format x = false | None => True end) ->
+    get_style st' (get_cell_style_index l' r c) = Ok s.
+Proof.
+  intros Hud Hwf Hi Hs.
+  pose proof (intern_readback _ _ _ _ _ _ _ _ font_eqb_eq fill_eqb_eq border_eqb_eq align_eqb_eq st s st' i Hwf Hi) as Hr.
+  destruct (set_column_style_layer down up Hud l c i l' Hs) as (H1 & H2). split.
+  - exists i. split; assumption.
+  - intros r Hc Hrow. rewrite (H2 r Hc Hrow). exact Hr.
 Qed.
 
 End Cells.
